@@ -106,6 +106,7 @@ def _prelude(kind):
             pass
 
 
+@core.guard
 def judge(case, reuse=False):
     """
     One case = a fresh message and a sequence of assignment attempts.  With reuse=True (the
